@@ -18,7 +18,7 @@ TEST_HEAP = {
     "s6": {"c": "Many", "p": {"ninit": 0}, "k": {"items": ["s1", "s3", "s5"], "head": "none"}, "o": 0},
 }
 NODECLASSES = {"Leaf", "Unary", "Many", "ASTNode"}
-KEYS = {"x", "y", "items"}
+KEYS = {"x", "y", "xy", "items"}      # `x y` and `xy` differ only by white space between two words
 BADRE = {"("}
 
 
@@ -26,8 +26,8 @@ def gen_cases(chk, lang, maxtok, mutmax):
     mod, cfg = inst.instance(
         "I_Syntax", "Gen_Syntax",
         dict(Lang=lang, MaxTok=maxtok, MutMax=mutmax, ClassNames={"Leaf", "Nope", "CodePoint"},
-             FieldNames={"items"}, Digs={1, 2}, StrNames={"ab", "("}, NodeClasses=set(NODECLASSES), BadRegex=set(BADRE),
-             KeyNames=set(KEYS), TestHeap=TEST_HEAP, TestRoot="s6"),
+             FieldNames={"items"}, Digs={1, 2}, StrNames={"ab", "a b", "("}, NodeClasses=set(NODECLASSES), BadRegex=set(BADRE),
+             KeyNames=set(KEYS), TestHeap=TEST_HEAP, TestRoot="s6", SplitNames={("xy", "x", "y")} if lang == "pattern" else set()),
         invariants=["EmitInv", "GenInRec"])
     (chk.wd / "I_Syntax.tla").write_text(mod)
     r = tlc.run(chk.wd, "I_Syntax", cfg, workers=core.NPROC, timeout=3000)
@@ -180,7 +180,7 @@ ALPH = {
               ("nm", "CodePoint"), ("nm", "Many"), ("nm", "Late")],
     "pattern": [("lp", "("), ("rp", ")"), ("bar", "|"), ("star", "*"), ("at", "@"), ("eq", "="), ("lb", "["), ("rb", "]"),
                 ("arrow", "->"), ("dollar", "$"), ("none", "None"), ("nm", "Leaf"), ("nm", "items"), ("nm", "x"), ("nm", "y"),
-                ("nm", "Nope"), ("nm", "CodePoint"), ("nm", "Late"), ("str", "ab"), ("str", "(")],
+                ("nm", "xy"), ("nm", "Nope"), ("nm", "CodePoint"), ("nm", "Late"), ("str", "ab"), ("str", "a b"), ("str", "(")],
 }
 
 
@@ -289,6 +289,16 @@ def run(chk: core.Check):
     for viol, n, nontriv in core.parallel(_replay, allraw, {}, chunk=200):
         chk.evaluations += n
         chk.nontrivial |= nontriv
+        for clause, detail, case in viol:
+            chk.add(core.Violation(clause, case, detail))
+    # texts that differ only by white space between two words, compiled one after the other in one process (a compiled
+    # pattern may be cached: the cache must tell them apart): the one-word texts first, then their two-word mutants
+    def has(raw, what):
+        return what in raw
+    order = [r for r in allraw if has(r, '\\"xy\\"')] + [r for r in allraw if has(r, '\\"v\\":\\"x\\"},{\\"k\\":\\"nm\\",\\"v\\":\\"y\\"')]
+    chk.notes["whitespace_pairs_in_one_process"] = len(order)
+    for viol, n, nontriv in core.parallel(_replay, order, {}, nproc=1):
+        chk.evaluations += n
         for clause, detail, case in viol:
             chk.add(core.Violation(clause, case, detail))
     chk.replayed += len(allraw)
